@@ -634,6 +634,12 @@ def c08(ctx: Any, total: int) -> None:
                 hists = dict(hists, **{asset: rng.choice(ms)})
             if i % 3 == 2:
                 args.append("-n")
+        if index % 8 == 5:
+            # every account ends <= 0 while lots stay partly unsold (stale exchange-supplied crypto_out_with_fee): with -n the run
+            # must still complete and report the negative balance (FX7)
+            hists = dict(hists, **{sorted(hists)[0]: families.stale_with_fee_overdraft(rng, sorted(hists)[0])})
+            args = ["-m", rng.choice(METHODS), "-n"]
+            ctx.count("cli_runs_with_no_positive_balance_but_unsold_lots")
         if "-n" not in args and rng.random() < 0.5:
             # a from-date never changes the verdict (balances cover all history up to the to-date)
             days = sorted({parse_ts(r["ts"]).date() for h in hists.values() for r in h["rows"]})
